@@ -11,6 +11,8 @@ fn main() {
     "c01" => vh::engines::c01::run(),
     "c02gen" => vh::engines::c02::generate(),
     "c02report" => vh::engines::c02::report(),
+    "c05" => vh::engines::c05::run(),
+    "c05worker" => vh::engines::c05::worker(&args[2..]),
     "c06" => vh::engines::c06::run(),
     "c07" => vh::engines::c07::run(),
     "c09" => vh::engines::c09::run(),
